@@ -45,9 +45,12 @@ struct Gen<'a> {
     tags: Vec<String>,
     prelude_unwrap_none: usize,
     prelude_unwrap_err: usize,
+    /// line of `g(a, b)` inside `apply<f>` of each file
+    apply_line: Vec<usize>,
 }
 
-const KINDS: [&str; 13] = [
+const KINDS: [&str; 15] = [
+    "wrapper_oob", "wrapper_div",
     "div_int", "mod_int", "div_assign", "div_float_var", "div_float_lit", "ovf_add", "ovf_mul", "ovf_neg",
     "ovf_pow", "oob_get", "oob_set", "panic", "unwrap_none",
 ];
@@ -138,6 +141,24 @@ impl<'a> Gen<'a> {
                 self.chain.push(Frame { file: fname, lo: l, hi: l, func: func.into() });
                 self.tags.push("ctx:stmt".into());
                 return format!("panic: `boom {k}`");
+            }
+            "wrapper_oob" | "wrapper_div" => {
+                // the failing operation is inside the wrapper function generated for an intrinsic used as a
+                // function value: that code has no source of its own and is attributed to the place where the
+                // function value is made (D92, repaired by /repo 2fca043)
+                let (line, name, kl) = if kind == "wrapper_oob" {
+                    self.files[f].push(format!("{indent}let arr{k} = [1, 2, 3]"));
+                    (format!("{indent}let q{k} = apply{f}(array_get, arr{k}, x + 3)"), "array_get", "error: indexed past the end of an array")
+                } else {
+                    (format!("{indent}let q{k} = applyd{f}(divide_int, 10 + x, x)"), "divide_int", "error: division by zero")
+                };
+                let l = self.files[f].push(line);
+                let (al, an) = if kind == "wrapper_oob" { (self.apply_line[f], format!("apply{f}")) } else { (self.apply_line[f] + 3, format!("applyd{f}")) };
+                self.chain.push(Frame { file: fname.clone(), lo: l, hi: l, func: name.into() });
+                self.chain.push(Frame { file: fname.clone(), lo: al, hi: al, func: an });
+                self.chain.push(Frame { file: fname, lo: l, hi: l, func: func.into() });
+                self.tags.push("ctx:intrinsic-wrapper".into());
+                return kl.into();
             }
             "unwrap_none" => {
                 let err = self.rng.chance(1, 3);
@@ -307,6 +328,7 @@ fn gen_program(rng: &mut Rng, kind: &str, pl_none: usize, pl_err: usize) -> Prog
         tags: vec![],
         prelude_unwrap_none: pl_none,
         prelude_unwrap_err: pl_err,
+        apply_line: vec![0; nfiles],
     };
     // imports: every file imports every other file (the checker resolves cycles between files)
     for i in 0..nfiles {
@@ -328,6 +350,13 @@ fn gen_program(rng: &mut Rng, kind: &str, pl_none: usize, pl_err: usize) -> Prog
         g.files[f].push("}");
         g.files[f].push(format!("fn helper2_{f}(v: int, w: T) -> T {{"));
         g.files[f].push("  w");
+        g.files[f].push("}");
+        // (same body line number relative to each other: the second helper is two lines below the first)
+        g.files[f].push(format!("fn apply{f}(g: (array<int>, int) -> int, a: array<int>, b: int) -> int {{"));
+        g.apply_line[f] = g.files[f].push("  g(a, b)");
+        g.files[f].push("}");
+        g.files[f].push(format!("fn applyd{f}(g: (int, int) -> int, a: int, b: int) -> int {{"));
+        g.files[f].push("  g(a, b)");
         g.files[f].push("}");
     }
     // which file each function lives in, recursion depth per function
@@ -559,6 +588,31 @@ fn exec(p: &Prog) -> Res {
     }
 }
 
+fn big_frame_prog(n: usize) -> Prog {
+    let mut f = FileSrc { name: "main.abra".into(), lines: vec![] };
+    f.push("fn big(x: int) -> int {");
+    f.push("  let l0 = x + 1");
+    for i in 1..n {
+        f.push(format!("  let l{i} = l{} + 1", i - 1));
+    }
+    f.push(format!("  let z = l{} - l{}", n - 1, n - 1));
+    let fail = f.push(format!("  let q = l{} / z", n - 2));
+    f.push("  q");
+    f.push("}");
+    f.push("let x = 0");
+    let call = f.push("println(big(x))");
+    Prog {
+        main: f.text(),
+        extra: vec![],
+        kind_line: "error: division by zero".into(),
+        chain: vec![
+            Frame { file: "main.abra".into(), lo: fail, hi: fail, func: "big".into() },
+            Frame { file: "main.abra".into(), lo: call, hi: call, func: "<main>".into() },
+        ],
+        tags: vec!["ctx:big-frame".into()],
+    }
+}
+
 fn main() {
     let mut ctx = Ctx::from_env("C32");
     let prelude = std::fs::read_to_string(repo_root().join("modules/prelude.abra")).unwrap_or_default();
@@ -575,6 +629,9 @@ fn main() {
         }
         progs.push((kind, p));
     }
+    // hard probe: a frame with more than 16384 slots (offsets beyond the 15-bit register range are reached
+    // with LoadOffset/StoreOffset only, D90): the failing line and the call site are still the right ones
+    progs.insert(0, ("big_frame", big_frame_prog(16500)));
     let results = par_map(&progs, |(_, p)| exec(p));
     for (idx, ((kind, p), r)) in progs.iter().zip(results).enumerate() {
         ctx.count(&format!("kind:{kind}"));
